@@ -6,7 +6,7 @@
    Part 3: the algebraic core (soundness, completeness).
    Part 4: the step-by-step evaluation of [pluq_solve_core] and the theorems
            [pluq_solve_verdict], [pluq_solve_nocheck], [solve_verdict], [solve_nocheck]. *)
-From Coq Require Import List NArith ZArith Arith Lia Bool Sorted.
+From Coq Require Import List NArith ZArith Arith Lia Bool Sorted ZifyBool ZifyNat ZifyN.
 From M4 Require Import Base.Bits Lin.Mat Lin.MatAlg Lin.Ops Alg.Gauss Alg.PLE Alg.PLELemmas Alg.PLESpec
   Alg.PLEProofs Lin.Spec Lin.Perm Lin.Tri Lin.Observers Alg.TRSM Alg.TRSMProofs Lin.OpsProofs Alg.Solve.
 Import ListNotations.
@@ -310,7 +310,7 @@ Section Core.
 
   Section Complete.
     Variables (C1 C2 W X : mat).
-    Hypotheses (HC1 : wf C1) (HrC1 : nr C1 = r).
+    Hypotheses (HC1 : wf C1) (HrC1 : nr C1 = r) (HcC2 : nc C2 = nc C1).
     Hypotheses (HW : wf W) (HrW : nr W = r).
     Hypotheses (HX : wf X) (HrX : nr X = nc A) (HcX : nc X = nc C1).
     Hypothesis E1 : mmul (unit_lower r LU) W = C1.
@@ -331,3 +331,198 @@ Section Core.
     Qed.
   End Complete.
 End Core.
+
+(** * 4a. the chunked loops (solve.c:109-113, :175-180, :184) *)
+Ltac Zify.zify_post_hook ::= Z.div_mod_to_equations.
+
+Ltac split4 := split; [|split; [|split]].
+
+Definition chunks_upto (k : nat) : list nat := map (fun t => PLE.radix * t) (seq 0 k).
+
+Lemma chunks_upto_S k : chunks_upto (S k) = chunks_upto k ++ [PLE.radix * k].
+Proof. unfold chunks_upto. now rewrite seq_S, map_app. Qed.
+
+Lemma chunks_cover ncols j : j < ncols -> j < PLE.radix * ((ncols + PLE.radix - 1) / PLE.radix).
+Proof. unfold PLE.radix. intros H. lia. Qed.
+
+(** clearing one row chunk by chunk *)
+Definition clear_row_chunks (B : mat) (i : nat) (l : list nat) : mat :=
+  fold_left (fun B j => clear_bits B i j (Nat.min PLE.radix (nc B - j))) l B.
+
+Lemma clear_row_chunks_spec B i k :
+  let B' := clear_row_chunks B i (chunks_upto k) in
+  nr B' = nr B /\ nc B' = nc B /\ (wf B -> wf B') /\
+  forall i' j', get B' i' j' =
+    get B i' j' && negb ((i' =? i) && (j' <? PLE.radix * k) && (j' <? nc B)).
+Proof.
+  induction k as [|k IH]; cbn zeta.
+  - change (clear_row_chunks B i (chunks_upto 0)) with B. split4; auto.
+    intros i' j'. rewrite Nat.mul_0_r. bsolve; now rewrite andb_true_r.
+  - unfold clear_row_chunks in *. rewrite chunks_upto_S, fold_left_app. cbn [fold_left].
+    cbn zeta in IH. set (Bk := fold_left _ (chunks_upto k) B) in *.
+    destruct IH as (Hr & Hc & Hw & Hg).
+    split4; auto.
+    + intros HB. apply wf_clear_bits. auto.
+    + intros i' j'. rewrite get_clear_bits, Hg, Hc. unfold PLE.radix.
+      destruct (get B i' j'); cbn [andb]; [|reflexivity]. bsolve.
+Qed.
+
+Lemma clear_row_all B i : wf B ->
+  let B' := clear_row_chunks B i (chunks (nc B)) in
+  nr B' = nr B /\ nc B' = nc B /\ wf B' /\ forall i' j', get B' i' j' = get B i' j' && negb (i' =? i).
+Proof.
+  intros HB. destruct (clear_row_chunks_spec B i ((nc B + PLE.radix - 1) / PLE.radix)) as (Hr & Hc & Hw & Hg).
+  cbn zeta. fold (chunks (nc B)) in *. split4; auto. intros i' j'. rewrite Hg.
+  destruct (Nat.ltb_spec j' (nc B)) as [Hj|Hj].
+  - pose proof (chunks_cover _ _ Hj). bsolve.
+  - rewrite (get_out_col B) by assumption. reflexivity.
+Qed.
+
+Lemma clear_rows_from_spec B from : wf B ->
+  let B' := clear_rows_from B from in
+  nr B' = nr B /\ nc B' = nc B /\ wf B' /\ forall i j, get B' i j = get B i j && (i <? from).
+Proof.
+  intros HB. unfold clear_rows_from.
+  assert (G : forall l B0, wf B0 ->
+     let B' := fold_left (fun B i => clear_row_chunks B i (chunks (nc B))) l B0 in
+     nr B' = nr B0 /\ nc B' = nc B0 /\ wf B' /\
+     forall i j, get B' i j = get B0 i j && negb (existsb (Nat.eqb i) l)).
+  { induction l as [|a l IH]; intros B0 HB0; cbn [fold_left existsb].
+    - split4; auto. intros. now rewrite andb_true_r.
+    - destruct (clear_row_all B0 a HB0) as (Hr & Hc & Hw & Hg). cbn zeta in *.
+      destruct (IH _ Hw) as (Hr' & Hc' & Hw' & Hg').
+      split4; try congruence. intros i j. rewrite Hg', Hg.
+      destruct (get B0 i j), (i =? a); reflexivity. }
+  destruct (G (seq from (nr B - from)) B HB) as (Hr & Hc & Hw & Hg).
+  cbn zeta. unfold clear_row_chunks in *. split4; auto. intros i j. rewrite Hg.
+  destruct (Nat.ltb_spec i from) as [Hi|Hi].
+  - replace (existsb (Nat.eqb i) (seq from (nr B - from))) with false; [reflexivity|].
+    symmetry. apply not_true_is_false. intros E. apply existsb_exists in E as (x & Hx & Ex).
+    apply in_seq in Hx. apply Nat.eqb_eq in Ex. lia.
+  - destruct (Nat.lt_ge_cases i (nr B)) as [Hi'|Hi'].
+    + replace (existsb (Nat.eqb i) (seq from (nr B - from))) with true; [cbn [negb]; now rewrite !andb_false_r|].
+      symmetry. apply existsb_exists. exists i. split; [apply in_seq; lia|apply Nat.eqb_refl].
+    + rewrite (get_out_row B) by assumption. reflexivity.
+Qed.
+
+Lemma clear_rows_from_mstack V W : wf V -> wf W -> nc V = nc W ->
+  clear_rows_from (mstack V W) (nr V) = mstack V (mzero (nr W) (nc V)).
+Proof.
+  intros HV HW Hc. assert (HVW : wf (mstack V W)) by auto with wf.
+  destruct (clear_rows_from_spec (mstack V W) (nr V) HVW) as (Hr & Hc' & Hw & Hg). cbn zeta in *.
+  apply mat_ext; auto.
+  - apply wf_mstack; auto with wf.
+  - intros i j _ _. rewrite Hg, !get_mstack by assumption. rewrite get_mzero. bsolve. now rewrite andb_true_r.
+Qed.
+
+(** * 4b. step-by-step evaluation of _mzd_pluq_solve_left *)
+Lemma msub_eq_full X a k c' : wf X -> a = 0 -> k = nr X -> c' = nc X -> msub X a 0 k c' = X.
+Proof. intros HX -> -> ->. now apply msub_full. Qed.
+
+Lemma wf_nr0 X : wf X -> nr X = 0 -> X = mzero 0 (nc X).
+Proof.
+  intros [Hl _] H0. destruct X as [a b l]. cbn in *. subst a. destruct l; [reflexivity|discriminate].
+Qed.
+
+Section Eval.
+  Variables (trsm_ll trsm_ul : mat -> mat -> mat).
+  Hypothesis Hll : forall L B, wf L -> wf B -> nr L = nr B -> nc L = nr B ->
+    let X := trsm_ll L B in wf X /\ nr X = nr B /\ nc X = nc B /\ mmul (unit_lower (nr B) L) X = B.
+  Hypothesis Hul : forall U B, wf U -> wf B -> nr U = nr B -> nc U = nr B ->
+    let X := trsm_ul U B in wf X /\ nr X = nr B /\ nc X = nc B /\ mmul (unit_upper (nr B) U) X = B.
+  Variable cutoff : nat.
+  Variables (m : nat) (r : nat) (S : mat) (Q : list nat).
+  Hypotheses (HwS : wf S) (HnrS : nr S = m) (Hrm : r <= m) (Hrc : r <= nc S).
+
+  Let LU := win S 0 0 r r.
+  Let H := win S r 0 m r.
+
+  Variables (C1 C2 C3 : mat) (c N : nat).
+  Hypotheses (HC1 : wf C1) (HC2 : wf C2) (HC3 : wf C3).
+  Hypotheses (HrC1 : nr C1 = r) (HcC1 : nc C1 = c) (HrC2 : nr C2 = m - r) (HcC2 : nc C2 = c)
+             (HrC3 : nr C3 = N - m) (HcC3 : nc C3 = c) (HmN : m <= N).
+
+  Let W := trsm_ll LU C1.
+  Let V := trsm_ul LU W.
+  Let Y2 := madd C2 (mmul H W).
+
+  Lemma eval_wfLU : wf LU /\ nr LU = r /\ nc LU = r.
+  Proof.
+    split; [apply wf_msub; rewrite wf_len by assumption; lia|]. cbn. lia.
+  Qed.
+  Lemma eval_wfH : wf H /\ nr H = m - r /\ nc H = r.
+  Proof.
+    split; [apply wf_msub; rewrite wf_len by assumption; lia|]. cbn. lia.
+  Qed.
+  Lemma eval_W : wf W /\ nr W = r /\ nc W = c /\ mmul (unit_lower r LU) W = C1.
+  Proof.
+    destruct eval_wfLU as (h1 & h2 & h3).
+    destruct (Hll LU C1 h1 HC1 ltac:(lia) ltac:(lia)) as (a & b & d & e). fold W in a, b, d, e.
+    rewrite HrC1 in *. rewrite HcC1 in *. auto.
+  Qed.
+  Lemma eval_V : wf V /\ nr V = r /\ nc V = c /\ mmul (unit_upper r LU) V = W.
+  Proof.
+    destruct eval_wfLU as (h1 & h2 & h3). destruct eval_W as (w1 & w2 & w3 & _).
+    destruct (Hul LU W h1 w1 ltac:(lia) ltac:(lia)) as (a & b & d & e). fold V in a, b, d, e.
+    rewrite w2 in *. rewrite w3 in *. auto.
+  Qed.
+  Lemma eval_Y2 : wf Y2 /\ nr Y2 = m - r /\ nc Y2 = c.
+  Proof.
+    destruct eval_wfH as (h1 & h2 & h3). destruct eval_W as (w1 & w2 & w3 & _).
+    split; [|cbn; lia]. apply wf_madd; auto with wf; cbn; lia.
+  Qed.
+
+  Lemma eval_check B0 P0 : apply_p_left B0 P0 = mstack (mstack C1 C2) C3 ->
+    pluq_solve_core trsm_ll trsm_ul false cutoff S r P0 Q B0 true =
+    ((if is_zero Y2 then (if is_zero C3 then 0 else -1) else -1)%Z,
+     apply_p_left_trans (mstack (mstack V Y2) (mzero (N - m) c)) Q).
+  Proof.
+    intros EB1. unfold pluq_solve_core. cbv zeta. rewrite EB1.
+    destruct eval_wfLU as (l1 & l2 & l3). destruct eval_wfH as (h1 & h2 & h3).
+    destruct eval_W as (w1 & w2 & w3 & _). destruct eval_V as (v1 & v2 & v3 & _).
+    destruct eval_Y2 as (y1 & y2 & y3).
+    change (nc (mstack (mstack C1 C2) C3)) with (nc C1). rewrite HcC1, HnrS.
+    assert (HC12 : wf (mstack C1 C2)) by (apply wf_mstack; auto; lia).
+    assert (HWC : wf (mstack W C2)) by (apply wf_mstack; auto; lia).
+    assert (HWY : wf (mstack W Y2)) by (apply wf_mstack; auto; lia).
+    assert (HVY : wf (mstack V Y2)) by (apply wf_mstack; auto; lia).
+    pose proof (wf_mzero (N - m) c) as HZ3.
+    assert (E1 : win (mstack (mstack C1 C2) C3) 0 0 r c = C1).
+    { unfold win. rewrite !msub_mstack_top by (auto; cbn; lia).
+      apply msub_eq_full; auto; lia. }
+    rewrite E1. change (trsm_ll (win S 0 0 r r) C1) with W.
+    assert (E2 : mpaste (mstack (mstack C1 C2) C3) 0 0 W = mstack (mstack W C2) C3).
+    { rewrite !mpaste_mstack_top by (auto; cbn; lia). now rewrite mpaste_all by (auto; lia). }
+    rewrite E2.
+    change (nc (mstack (mstack W C2) C3)) with (nc W). rewrite w3.
+    change (nr (mstack (mstack W C2) C3)) with (nr W + nr C2 + nr C3).
+    match goal with |- context [if m <? ?x then ?a else ?b] =>
+      assert (E3 : (if m <? x then a else b) =
+                   ((if is_zero C3 then 0 else -1)%Z, mstack (mstack W C2) (mzero (N - m) c))) end.
+    { destruct (Nat.ltb_spec m (nr W + nr C2 + nr C3)) as [Hlt|Hge].
+      - assert (E : win (mstack (mstack W C2) C3) m 0 (nr W + nr C2 + nr C3) c = C3).
+        { unfold win. rewrite msub_mstack_bot by (auto; cbn; lia).
+          apply msub_eq_full; auto; cbn; lia. }
+        rewrite E. rewrite set_ui_even by reflexivity. f_equal.
+        rewrite mpaste_mstack_bot by (auto with wf; cbn; lia).
+        f_equal. rewrite HrC3, HcC3. replace (m - nr (mstack W C2)) with 0 by (cbn; lia).
+        apply mpaste_all; auto with wf.
+      - assert (E0 : nr C3 = 0) by lia. pose proof (wf_nr0 C3 HC3 E0) as E.
+        rewrite HcC3 in E. rewrite E at 2 3. replace (N - m) with 0 by lia.
+        rewrite E. reflexivity. }
+    rewrite E3. cbv beta iota.
+    assert (E4 : win (mstack (mstack W C2) (mzero (N - m) c)) r 0 m c = C2).
+    { unfold win. rewrite msub_mstack_top by (auto; cbn; lia).
+      rewrite msub_mstack_bot by (auto; lia). apply msub_eq_full; auto; lia. }
+    rewrite E4. unfold addmul_spec. change (win S r 0 m r) with H. change (madd C2 (mmul H W)) with Y2.
+    assert (E5 : mpaste (mstack (mstack W C2) (mzero (N - m) c)) r 0 Y2 = mstack (mstack W Y2) (mzero (N - m) c)).
+    { rewrite mpaste_mstack_top by (auto; cbn; lia).
+      f_equal. rewrite mpaste_mstack_bot by (auto; lia). f_equal.
+      rewrite w2, Nat.sub_diag. apply mpaste_all; auto; lia. }
+    rewrite E5. change (trsm_ul (win S 0 0 r r) W) with V.
+    assert (E6 : mpaste (mstack (mstack W Y2) (mzero (N - m) c)) 0 0 V = mstack (mstack V Y2) (mzero (N - m) c)).
+    { rewrite !mpaste_mstack_top by (auto; cbn; lia).
+      now rewrite mpaste_all by (auto; lia). }
+    rewrite E6. reflexivity.
+  Qed.
+End Eval.
